@@ -38,9 +38,10 @@ SCRATCH = os.environ.get("SENS_SCRATCH", "/tmp/translator-sensitivity")
 TRANSLATORS = [("rs2lean.py", "RS2LEAN_OUT", "Builders.lean"), ("rs2lean_guards.py", "RS2LEAN_GUARDS_OUT", "Guards.lean"),
                ("rs2lean_nal.py", "RS2LEAN_NAL_OUT", "Nal.lean"), ("rs2lean_frag.py", "RS2LEAN_FRAG_OUT", "FragMethods.lean"),
                ("rs2lean_sched.py", "RS2LEAN_SCHED_OUT", "Schedule.lean"),
-               ("rs2lean_tables.py", "RS2LEAN_TABLES_OUT", "Tables.lean")]
+               ("rs2lean_tables.py", "RS2LEAN_TABLES_OUT", "Tables.lean"),
+               ("rs2lean_stats.py", "RS2LEAN_STATS_OUT", "Stats.lean")]
 PROOFS = ["Muxide.Props.C19Generated", "Muxide.Props.C19GeneratedTables", "Muxide.Props.C04Generated", "Muxide.Props.C07Generated",
-          "Muxide.Props.C14Generated", "Muxide.Props.C10Generated", "Muxide.Props.C11Generated", "Muxide.Props.C15Generated", "Muxide.Props.C03Generated"]
+          "Muxide.Props.C14Generated", "Muxide.Props.C10Generated", "Muxide.Props.C11Generated", "Muxide.Props.C15Generated", "Muxide.Props.C03Generated", "Muxide.Props.C06Generated"]
 
 
 def targets():
@@ -50,7 +51,7 @@ def targets():
     t += [("src/codec/h265.rs", n) for n in ("hevc_nal_type", "is_hevc_keyframe_nal_type", "extract_hevc_config", "is_hevc_keyframe", "hevc_annexb_to_hvcc")]
     t += [("src/fragmented.rs", n) for n in ("current_fragment_duration_ms", "ready_to_flush", "write_video", "flush_segment",
                                              "build_trun", "build_traf", "build_moof_with_offset", "build_moof", "build_media_segment")]
-    t += [("src/muxer/mp4.rs", "compute_interleave_schedule"), ("src/muxer/mp4.rs", "from_samples")]
+    t += [("src/muxer/mp4.rs", "compute_interleave_schedule"), ("src/muxer/mp4.rs", "from_samples"), ("src/muxer/mp4.rs", "max_end_pts")]
     return t
 
 
